@@ -127,7 +127,7 @@ def triage_exception(e: BaseException) -> t.Optional[str]:
     tb = traceback.extract_tb(e.__traceback__)
     inner = None
     for fr in tb:
-        if os.path.abspath(fr.filename).startswith(pd + os.sep):
+        if not fr.filename.startswith('<') and os.path.abspath(fr.filename).startswith(pd + os.sep):
             inner = fr
     if inner is None:
         return None
@@ -136,7 +136,7 @@ def triage_exception(e: BaseException) -> t.Optional[str]:
     # harness callable (predicate, hook) and the exception is ours.
     after = tb[tb.index(inner) + 1:]
     for fr in after:
-        if os.path.abspath(fr.filename).startswith(ROOT + os.sep):
+        if not fr.filename.startswith('<') and os.path.abspath(fr.filename).startswith(ROOT + os.sep):
             return None
     return f"{type(e).__name__}@{os.path.basename(inner.filename)}:{inner.name}"
 
